@@ -265,8 +265,11 @@ def mon_trace(run, prop):
     is done by TLC)."""
     ev = []
     acc = {}
+    new_conn = False
     for e in run.ev:
         k = e['e']
+        if k == 'conn':
+            new_conn = True         # the next request goes out on a connection opened for it
         if k in ('ans', 'feed', 'conn'):
             continue
         if k in ('req', 'rd', 'dl'):
@@ -275,6 +278,9 @@ def mon_trace(run, prop):
                 acc[key]['data'] += list(e['data'])
             else:
                 acc[key] = {'e': k, 'x': e['x'], 'data': list(e['data'])}
+                if k == 'req':
+                    acc[key]['new'] = new_conn
+                    new_conn = False
                 ev.append(acc[key])
             continue
         e = dict(e)
